@@ -429,7 +429,64 @@ var inplaceLib = []string{"slices.Delete", "slices.DeleteFunc", "slices.Sort", "
 
 // WritesFrom lists the writes through non-fresh references in the library
 // functions reachable from roots.
+// paramRoot returns the parameter an address/reference is derived from, if any.
+func paramRoot(v ssa.Value, depth int) *ssa.Parameter {
+	if depth > 8 {
+		return nil
+	}
+	switch x := v.(type) {
+	case *ssa.Parameter:
+		return x
+	case *ssa.FieldAddr:
+		return paramRoot(x.X, depth+1)
+	case *ssa.IndexAddr:
+		return paramRoot(x.X, depth+1)
+	case *ssa.Slice:
+		return paramRoot(x.X, depth+1)
+	case *ssa.UnOp:
+		if x.Op == token.MUL {
+			if fa, ok := x.X.(*ssa.FieldAddr); ok {
+				return paramRoot(fa.X, depth+1)
+			}
+		}
+	}
+	return nil
+}
+
+func paramIndex(fn *ssa.Function, p *ssa.Parameter) int {
+	for i, q := range fn.Params {
+		if q == p {
+			return i
+		}
+	}
+	return -1
+}
+
 func (e *Eff) WritesFrom(roots ...*ssa.Function) []Write {
+	isRoot := map[*ssa.Function]bool{}
+	for _, r := range roots {
+		isRoot[r] = true
+	}
+	// writesParam[fn][i]: fn (an open, non-root function) writes through its i-th parameter; judged at its call sites
+	writesParam := map[*ssa.Function]map[int]bool{}
+	deferToCaller := func(fn *ssa.Function, ref ssa.Value) bool {
+		if isRoot[fn] || !e.isOpen(fn) || fn.Parent() != nil {
+			return false
+		}
+		p := paramRoot(ref, 0)
+		if p == nil {
+			return false
+		}
+		i := paramIndex(fn, p)
+		if i < 0 {
+			return false
+		}
+		if writesParam[fn] == nil {
+			writesParam[fn] = map[int]bool{}
+		}
+		writesParam[fn][i] = true
+		return true
+	}
 	reach := e.p.Reachable(roots...)
 	var fns []*ssa.Function
 	for fn := range reach {
@@ -449,6 +506,9 @@ func (e *Eff) WritesFrom(roots ...*ssa.Function) []Write {
 					return
 				}
 				if !e.fresh(in.Addr) {
+					if deferToCaller(fn, in.Addr) {
+						return
+					}
 					what := "?"
 					if n, f, ok := fieldOf(in.Addr); ok {
 						what = fieldKey(n, f)
@@ -461,6 +521,9 @@ func (e *Eff) WritesFrom(roots ...*ssa.Function) []Write {
 				}
 			case *ssa.MapUpdate:
 				if !e.fresh(in.Map) {
+					if deferToCaller(fn, in.Map) {
+						return
+					}
 					what := "map"
 					if ld, ok := in.Map.(*ssa.UnOp); ok {
 						if n, f, ok := fieldOf(ld.X); ok {
@@ -497,6 +560,37 @@ func (e *Eff) WritesFrom(roots ...*ssa.Function) []Write {
 				}
 			}
 		})
+	}
+	// call sites of parameter-writing functions with shared arguments
+	for pass := 0; pass < 3; pass++ {
+		for _, fn := range fns {
+			e.cur = fn
+			e.memo = map[ssa.Value]int{}
+			eachInstr(fn, func(_ *ssa.BasicBlock, in ssa.Instruction) {
+				ci, ok := in.(ssa.CallInstruction)
+				if !ok {
+					return
+				}
+				for _, cal := range e.p.Callees(ci) {
+					wp := writesParam[cal]
+					if wp == nil {
+						continue
+					}
+					args := ci.Common().Args
+					for i := range wp {
+						if i >= len(args) || e.fresh(args[i]) {
+							continue
+						}
+						if pass == 0 && deferToCaller(fn, args[i]) {
+							continue
+						}
+						if pass == 2 {
+							out = append(out, Write{fn, in, "store", "argument of " + shortFn(cal), "shared memory is passed to " + shortFn(cal) + ", which writes through that parameter"})
+						}
+					}
+				}
+			})
+		}
 	}
 	return out
 }
